@@ -276,7 +276,11 @@ fn run_case<F: Family>(name: &str, lines: &[String], w: &mut dyn Write) {
         reg::scope_set(false);
         reg::set_fault(-1);
         reloc::scan_live();
-        reg::scan_heap(F::SIZE);
+        {
+            let storage: Vec<usize> = env.vecs.iter()
+                .filter_map(|c| c.try_borrow().ok().and_then(|b| b.as_ref().map(|v| v.storage_ptr()))).collect();
+            reg::scan_heap(F::SIZE, &storage);
+        }
         let evs = reg::take_events();
         let res = match &r {
             Ok(()) => "ok".to_string(),
